@@ -236,6 +236,10 @@ func (a *BoolArg) Parse() error {
 	if e != nil {
 		return e
 	}
+	if a.arg != "true" && a.arg != "false" {
+		// strconv.ParseBool also takes 1, t, T, TRUE, True, 0, f, ...
+		return errors.New("invalid boolean argument: " + string(a.arg))
+	}
 	a.b = b
 	return nil
 }
